@@ -253,15 +253,19 @@ func (g *genCfg) writeCmd(r *rand.Rand) Cmd {
 		if r.Intn(4) == 0 {
 			args = append(args, "XX")
 		}
-		n := 1 + r.Intn(2)
-		used := map[string]bool{}
+		// one to three pairs; a name may come back within one command (the pairs apply in order),
+		// and values are often from a small set so that "same value as stored" happens
+		n := 1 + r.Intn(3)
 		for i := 0; i < n; i++ {
 			f := pick(r, g.fields)
-			if used[f] {
-				continue
+			if i > 0 && r.Intn(3) == 0 {
+				f = args[len(args)-2]
 			}
-			used[f] = true
-			args = append(args, f, g.fieldVal(r))
+			v := g.fieldVal(r)
+			if r.Intn(3) == 0 {
+				v = []string{"0", "1", "2"}[r.Intn(3)]
+			}
+			args = append(args, f, v)
 		}
 		return Cmd{Args: args}
 	default:
